@@ -43,6 +43,7 @@ inductive Op where
   | err                                 -- error("boom")
   | flag                                -- the timer fires now (heart_beat_flag = 1)
   | hbs                                 -- heart_beats()
+  | take (item : Nat)                   -- item->move_object(this_object()): item joins the inventory
   deriving Repr, BEq
 
 structure World where
@@ -56,6 +57,8 @@ structure World where
   nofn : List Nat := [1]                -- prog->heart_beat == -1
   dead : List Nat := []                 -- O_DESTRUCTED
   nb : Nat → Nat := fun _ => 0          -- per object: number of beats so far (selects the script)
+  inv : List (Nat × Nat) := []          -- (item, carrier), newest first (ob->contains is a head-inserted list)
+  hooks : Nat → List Op := fun _ => []  -- static: what move_or_destruct() of an object does
   crashed : Bool := false
 
 abbrev Scripts := Nat → Nat → List Op
@@ -109,8 +112,24 @@ def errorHandler (w : World) : World :=
   | some c => { setHeartBeat w c 0 with cur := none }
   | none => w
 
-/-- one operation executed by the live object `self` -/
-def stepOp (w : World) (self : Nat) (op : Op) : World × List Ev × Status :=
+def isItem (w : World) (x : Nat) : Bool := w.inv.any (fun p => p.1 == x)
+
+/-- ob->contains of carrier c, front to back -/
+def itemsOf (w : World) (c : Nat) : List Nat := (w.inv.filter (fun p => p.2 == c && p.1 != c)).map (·.1)
+
+/-- the two heart-beat relevant statements at the end of destruct_object -/
+def leafPhase (t : Nat) (w : World) : Nat → World
+  | 1 => setHeartBeat w t 0                                                         -- set_heart_beat (ob, 0);
+  | 2 => { w with dead := t :: w.dead, inv := w.inv.filter (fun p => p.1 != t) }    -- ob->flags |= O_DESTRUCTED;
+  | _ => w
+
+/-- src/simulate.c destruct_object for an object without inventory: the statements in the ORDER of the source
+    (`NV.Gen.C11.destructOrder`: 0 = inventory loop, 1 = set_heart_beat (ob, 0), 2 = O_DESTRUCTED store) -/
+def destructLeaf (w : World) (t : Nat) : World := NV.Gen.C11.destructOrder.foldl (leafPhase t) w
+
+/-- one operation executed by the live object `self`; destruct here is the destruct of an object without
+    inventory (`stepOp` below runs the inventory hooks) -/
+def stepOpBasic (w : World) (self : Nat) (op : Op) : World × List Ev × Status :=
   match op with
   | .shb t n =>
     if !w.alive t then (w, [.shbDead self t n], .ok)
@@ -122,9 +141,7 @@ def stepOp (w : World) (self : Nat) (op : Op) : World × List Ev × Status :=
     else (w, [.query self t (queryHeartBeat w t)], .ok)
   | .dest t =>
     if !w.alive t || t < 2 then (w, [.destNone self t], .ok)
-    else
-      let w' := setHeartBeat w t 0
-      ({ w' with dead := t :: w'.dead }, [.dest self t], if t = self then .stop else .ok)
+    else (destructLeaf w t, [.dest self t], if (destructLeaf w t).alive self then .ok else .stop)
   | .clone new kind n =>
     if w.known.contains new then (w, [.cloneDup self new], .ok)
     else
@@ -136,8 +153,69 @@ def stepOp (w : World) (self : Nat) (op : Op) : World × List Ev × Status :=
   | .err => (w, [.err self], .err)
   | .flag => ({ w with flag := true }, [.flag self], .ok)
   | .hbs => (w, [.hbs self (w.hbs.map (·.ob)).reverse], .ok)
+  | .take i =>
+    if w.alive i && !(i < 2) && i != self && !isItem w self && !isItem w i && (itemsOf w i).isEmpty then
+      ({ w with inv := (i, self) :: w.inv }, [.into i self], .ok)
+    else (w, [.intoNone i self], .ok)
 
-/-- run a script; stops at the first error or when the object destructed itself -/
+/-- run a script; stops at the first error or when the object is destructed (by itself, or as an inventory item
+    of the object it destructed) -/
+def runOpsBasic (w : World) (self : Nat) : List Op → World × List Ev × Status
+  | [] => (w, [], .ok)
+  | op :: rest =>
+    match stepOpBasic w self op with
+    | (w1, evs, .ok) =>
+      match runOpsBasic w1 self rest with
+      | (w2, evs2, st) => (w2, evs ++ evs2, st)
+    | (w1, evs, st) => (w1, evs, st)
+
+
+/-- operations that the scripted move_or_destruct() hooks perform (no destruct - restrict_destruct would refuse it -,
+    no error, no inventory change) -/
+def hookAllowed : Op → Bool
+  | .shb _ _ | .q _ | .clone _ _ _ | .flag | .hbs => true
+  | _ => false
+
+/-- one iteration of `while (ob->contains)`: apply move_or_destruct() in the item (its script may touch any heart beat,
+    including the dying carrier's), then `if (otmp == ob->contains) destruct_object (otmp)` -/
+def hookStep (carrier : Nat) (acc : World × List Ev) (i : Nat) : World × List Ev :=
+  if !acc.1.alive i then acc
+  else
+    match runOpsBasic acc.1 i ((acc.1.hooks i).filter hookAllowed) with
+    | (w1, e1, _) =>
+      if w1.alive i then (destructLeaf w1 i, acc.2 ++ .hook i carrier :: e1 ++ [.hookEnd i])
+      else (w1, acc.2 ++ .hook i carrier :: e1 ++ [.hookGone i])
+
+def hooksPhase (w : World) (t : Nat) : World × List Ev := (itemsOf w t).foldl (hookStep t) (w, [])
+
+/-- one statement group of destruct_object; the Bool says "still going": the inventory loop returns from
+    destruct_object when a hook left the object destructed (`if (ob->flags & O_DESTRUCTED) return;`) -/
+def fullPhase (t : Nat) (acc : World × List Ev × Bool) : Nat → World × List Ev × Bool
+  | 0 =>
+    if acc.2.2 then
+      match hooksPhase acc.1 t with
+      | (w1, e1) => (w1, acc.2.1 ++ e1, w1.alive t)
+    else acc
+  | ph => if acc.2.2 then (leafPhase t acc.1 ph, acc.2.1, true) else acc
+
+/-- src/simulate.c destruct_object: inventory hooks, heart-beat removal and the O_DESTRUCTED store in the order of
+    the source; (world, events, ran to the end) -/
+def destructFull (w : World) (t : Nat) : World × List Ev × Bool :=
+  NV.Gen.C11.destructOrder.foldl (fullPhase t) (w, [], true)
+
+/-- one operation executed by the live object `self` -/
+def stepOp (w : World) (self : Nat) (op : Op) : World × List Ev × Status :=
+  match op with
+  | .dest t =>
+    if !w.alive t || t < 2 then (w, [.destNone self t], .ok)
+    else
+      match destructFull w t with
+      | (w', evs, true) => (w', evs ++ [.dest self t], if w'.alive self then .ok else .stop)
+      | (w', evs, false) => (w', evs ++ [.destGone self t], if w'.alive self then .ok else .stop)
+  | op => stepOpBasic w self op
+
+/-- run a script; stops at the first error or when the object is destructed (by itself, or as an inventory item
+    of the object it destructed) -/
 def runOps (w : World) (self : Nat) : List Op → World × List Ev × Status
   | [] => (w, [], .ok)
   | op :: rest =>
@@ -217,7 +295,9 @@ def runCmds (sc : Scripts) (w : World) : List Cmd → World × List Ev
       match runCmds sc w1 cs with
       | (w2, evs2) => (w2, evs ++ evs2)
 
-/-- the events of a whole run from the initial state (two blueprints loaded, nothing enabled) -/
-def events (sc : Scripts) (cmds : List Cmd) : List Ev := (runCmds sc {} cmds).2
+/-- the events of a whole run from the initial state (two blueprints loaded, nothing enabled); `hk` = what the
+    move_or_destruct() hook of each object does -/
+def events (sc : Scripts) (cmds : List Cmd) (hk : Nat → List Op := fun _ => []) : List Ev :=
+  (runCmds sc { hooks := hk } cmds).2
 
 end NV.C11
